@@ -161,6 +161,50 @@ class Codec:
 
         return fixmsg + SEP
 
+    def reframe_possdup(self, encoded_msg: bytes) -> str:
+        """Makes retransmission (PossDupFlag=Y) of already encoded message.
+
+        Fields are taken as they were sent (no decoding of repeating groups),
+        SendingTime is renewed, OrigSendingTime keeps the original one.
+
+        Args:
+            encoded_msg: message as it was sent before
+
+        Returns:
+            encoded message (string)
+        """
+        fields = encoded_msg.decode("utf-8").split(self.SOH)
+        msg_type = None
+        body = []
+        has_orig_time = any(f.startswith("122=") for f in fields)
+        for f in fields:
+            tag, _, value = f.partition("=")
+            if tag in {"", FTag.BeginString, FTag.BodyLength, FTag.CheckSum}:
+                continue
+            elif tag == FTag.MsgType and msg_type is None:
+                msg_type = f
+            elif tag == FTag.PossDupFlag:
+                continue
+            elif tag == FTag.SendingTime:
+                body.append("%s=%s" % (FTag.SendingTime, self.current_datetime()))
+                body.append("%s=Y" % FTag.PossDupFlag)
+                if not has_orig_time:
+                    body.append("%s=%s" % (FTag.OrigSendingTime, value))
+            else:
+                body.append(f)
+        if msg_type is None:
+            raise EncodingError("MsgType is missing")
+
+        body = self.SOH.join(body) + self.SOH
+        header = [
+            "%s=%s" % (FTag.BeginString, self.protocol.beginstring),
+            "%s=%i" % (FTag.BodyLength, len((body + msg_type).encode("utf-8")) + 1),
+            msg_type,
+        ]
+        fixmsg = self.SOH.join(header) + self.SOH + body
+        cksum = sum(fixmsg.encode("utf-8")) % 256
+        return fixmsg + "%s=%0.3i" % (FTag.CheckSum, cksum) + self.SOH
+
     def decode(
         self,
         rawmsg: bytes,
